@@ -40,8 +40,22 @@ SCHEMA = {
     "SeismicRecording3C": {
         "ns": ("obj", "TimeSeries"), "ew": ("obj", "TimeSeries"), "vt": ("obj", "TimeSeries"),
         "degrees_from_north": "real",
+        # the recording's meta dictionary, opaque: one entry standing for "the entries of recording <id>"
+        "meta": ("derived", lambda ex, st, o: _opaque_meta(o)),
     },
 }
+
+
+def _opaque_meta(o):
+    from .core import DictV
+    return DictV({"<entries of the recording's meta>": o.id})
+
+
+def arr_term(cls, name):
+    key = (cls, name, "array-term")
+    if key not in _FUNCS:
+        _FUNCS[key] = z3.Function(f"fld_{cls}_{name}_array", I, z3.ArraySort(I, R))
+    return _FUNCS[key]
 
 
 def arr_len(cls, name, oid):
@@ -80,6 +94,10 @@ def sobj_getattr(ex, st, o, attr, node=None):
         return fld(o.cls, attr, I)(o.id)
     if kind == "bool":
         return fld(o.cls, attr, B)(o.id)
+    if kind == "arr" and getattr(ex.k, "array_fields_as_terms", False):
+        # the field's storage as one array-valued term of the object id (for contracts that pass it to opaque array functions)
+        n = arr_len(o.cls, attr, o.id)
+        return ex.alloc_arr(st, (n,), arr_term(o.cls, attr)(o.id), "real", owner=f"{o.owner}.{attr}", tag=f"{o.cls}_{attr}")
     if kind == "arr":
         n = arr_len(o.cls, attr, o.id)
         j = z3.Int("j!so")
